@@ -131,9 +131,10 @@ def build(w):
     w.cls('PopenFS', module='popen_forkserver', pyname='Popen',
           fields={'returncode': opt(IntS), 'pid': IntS, 'sentinel': ValS})
     w.cls('Proc', module='process', pyname='BaseProcess',
-          fields={'_popen': opt(ref('PopenF')), '_parent_pid': IntS, '_sentinel': ValS, '_start_method': opt(ValS),
+          fields={'_popen': opt(ref('PopenF')), '_parent_pid': IntS, '_identity': ValS, '_sentinel': ValS, '_start_method': opt(ValS),
                   '_name': ValS, '_controlled_termination': BoolS, 'pid': ValS, 'name': ValS})
     w.classes['Proc'].methods.update({'_Popen': ext_Popen, 'run': ext_run})
+    w.opaque_slices = True      # (Proc._identity is an opaque tuple: its slices are opaque values)
     w.classes['PopenF'].methods['close'] = lambda ex, a, k: (gset(ex, 'closes', SV(IntS, gget(ex, 'closes').e + 1)), SNone())[1]
     w.global_overrides['process._children'] = lambda ex: gget(ex, 'children')
     w.global_overrides['process._current_process'] = lambda ex: gget(ex, 'current')
